@@ -17,9 +17,9 @@ the order of gcda buffers; multisets are lists up to `List.Perm`.
 Full strength: `C17_items_exact`, `C17_arg_order_partial`/`C17_packaging_invariant_partial` for
 every layout in which gcno files with the same (stem, llvm) key have the same content; without
 that guard the statement is false of the code (`C17_packaging_invariant_false`, finding
-C17-gcno-same-stem-last-wins). `C17_xml_marker_used_false` records that a JaCoCo report whose
-marker is present but whose first 256 bytes cannot be read as UTF-8 text (shorter file, cut or
-foreign character) is ignored (findings C17-xml-short-ignored, C17-xml-nonutf8-prefix-ignored).
+C17-gcno-same-stem-last-wins). The sniffing theorems (`C17_info_signature`, `C17_xml_signature`)
+are full strength: an `.xml` is used iff the JaCoCo DTD marker occurs in its first 256 bytes,
+whatever its length and encoding (after fix 82d1c8b).
 -/
 import GrcovModel.Lemmas.Producer
 namespace Grcov.Props.C17
@@ -185,43 +185,20 @@ theorem C17_info_signature (L : Bool) (f : File) (s : Name)
       · exact absurd ((isInfo_iff f.head).1 hi) hh
     simp [this, bInfo, bGcno, bGcda, bProfdata, bProfraw]
 
-/-- an `.xml` file without the JaCoCo DTD marker in its first 256 bytes is ignored -/
-theorem C17_xml_without_marker_ignored (L : Bool) (f : File) (s : Name)
-    (h : splitExt f.path = some (s, bXml))
-    (hm : containsSub bMarker (f.head.take 256) = false) : classify L f = .ignored := by
+/-- an `.xml` file is used iff the JaCoCo DTD marker occurs, as bytes, in its first 256 bytes (in the
+whole file when it is shorter) – whatever its length and encoding -/
+theorem C17_xml_signature (L : Bool) (f : File) (s : Name)
+    (h : splitExt f.path = some (s, bXml)) :
+    (containsSub bMarker (f.head.take 256) = true → classify L f = .xml) ∧
+    (containsSub bMarker (f.head.take 256) = false → classify L f = .ignored) := by
   rw [classify_of_ext h]
-  simp [isJacoco, hm, bXml, bInfo, bGcno, bGcda, bProfdata, bProfraw]
+  constructor <;> intro hm <;>
+    simp [isJacoco, hm, bXml, bInfo, bGcno, bGcda, bProfdata, bProfraw]
 
 /-- a file without extension (also a dot-file such as `.info`) is ignored -/
 theorem C17_no_extension_ignored (L : Bool) (f : File) (h : splitExt f.path = none) :
     classify L f = .ignored := by
   unfold classify; rw [h]
-
-/-- an `.xml` file WITH the marker is used – under the guard that the sniffer forces: 256 bytes
-can be read and they are valid UTF-8 -/
-theorem C17_xml_marker_used_partial (L : Bool) (f : File) (s : Name)
-    (h : splitExt f.path = some (s, bXml))
-    (hm : containsSub bMarker (f.head.take 256) = true)
-    (hlen : 256 ≤ f.head.length) (hutf : utf8Valid (f.head.take 256) = true) :
-    classify L f = .xml := by
-  rw [classify_of_ext h]
-  simp [isJacoco, hm, hlen, hutf, bXml, bInfo, bGcno, bGcda, bProfdata, bProfraw]
-
-/-- without that guard it is false: a report shorter than 256 bytes is ignored whatever it
-contains (here: alone in a directory, the run fails with "No input files found") -/
-theorem C17_xml_marker_used_false :
-    ∃ (f : File) (s : Name), splitExt f.path = some (s, bXml) ∧
-      containsSub bMarker (f.head.take 256) = true ∧ classify false f = .ignored ∧
-      run ⟨false, false⟩ [.dir 0 [f]] = .panicNoInput :=
-  ⟨⟨[114, 46, 120, 109, 108], bMarker, 7⟩, [114], by decide, by decide, by decide, by decide⟩
-
-/-- every `.xml` shorter than 256 bytes is ignored -/
-theorem C17_xml_short_ignored (L : Bool) (f : File) (s : Name)
-    (h : splitExt f.path = some (s, bXml)) (hlen : f.head.length < 256) :
-    classify L f = .ignored := by
-  rw [classify_of_ext h]
-  have : ¬ 256 ≤ f.head.length := by omega
-  simp [isJacoco, this, bXml, bInfo, bGcno, bGcda, bProfdata, bProfraw]
 
 /-- Moving an info / xml / json / profile file elsewhere (another directory, another archive, a
 plain argument with its absolute path) keeps its artifact: for these extensions the class depends
@@ -288,6 +265,13 @@ example : closed ⟨false, false⟩ (arts false exLayout2) =
     [.content .info 31, .gcnoBuf [98] 12 [],
      .gcnoPath [115, 117, 98, 47, 97] (some 11) (some 21),
      .gcnoPath [115, 117, 98, 47, 97] (some 11) (some 22)] := by decide
+
+/-- a 14-byte `.xml` that is just the marker, alone in a directory, is used (it was ignored before
+fix 82d1c8b); so is one whose prefix is not UTF-8 -/
+example : run ⟨false, false⟩ [.dir 0 [⟨[114, 46, 120, 109, 108], bMarker, 7⟩,
+      ⟨[115, 46, 120, 109, 108], 255 :: 233 :: bMarker, 8⟩]] =
+    .ok [.content .jacocoXml 7 (.arch (.arg 0)), .content .jacocoXml 8 (.arch (.arg 0))] [] := by
+  decide
 
 /-- only a gcda and decoys: the run fails -/
 example : run ⟨false, false⟩ [.dir 0 [exGcda1, exFake, exMap]] = .panicNoInput := by decide
